@@ -65,10 +65,10 @@ def is_abstract_body(fn):
     return all(isinstance(s, ast.Pass) for s in body)
 
 
-def transform_uses(mod, fn):
+def transform_uses(mod, fn, given=None):
     """Expression nodes that apply the motion: calls whose arguments contain both motion parameters
     (translation, angle), `.dot(` on a matrix built from them, and `x + angle` sums."""
-    params = [a.arg for a in fn.args.args][1:3]
+    params = list(given) if given is not None else [a.arg for a in fn.args.args][1:3]
     out = []
     if len(params) < 2:
         return out, params
@@ -78,18 +78,153 @@ def transform_uses(mod, fn):
     for n in walk_no_nested(fn):
         if isinstance(n, ast.Assign) and isinstance(n.value, ast.Call):
             names = {x.id for a in list(n.value.args) + [k.value for k in n.value.keywords] for x in ast.walk(a) if isinstance(x, ast.Name)}
-            if tr in names and an in names and isinstance(n.targets[0], ast.Name):
+            if tr is not None and tr in names and an in names and isinstance(n.targets[0], ast.Name):
                 matrices.add(n.targets[0].id)
     for n in walk_no_nested(fn):
         if isinstance(n, ast.Call):
             names = {x.id for a in list(n.args) + [k.value for k in n.keywords] for x in ast.walk(a) if isinstance(x, ast.Name)}
-            if tr in names and an in names:
+            if tr is not None and tr in names and an in names:
                 out.append(n)
             elif isinstance(n.func, ast.Attribute) and n.func.attr == "dot" and isinstance(n.func.value, ast.Name) and n.func.value.id in matrices:
                 out.append(n)
         elif isinstance(n, ast.BinOp) and isinstance(n.op, ast.Add) and any(isinstance(x, ast.Name) and x.id == an for x in (n.left, n.right)):
             out.append(n)
     return out, params
+
+
+def moved_attrs(repo, cls, fn, motion_params, depth=0, seen=None):
+    """Attributes of `self` that `fn` moves, decided by data flow rather than by the layout of the code:
+    (a) a store into X.A (X = self or a local object) of a value that derives from the motion parameters and reads
+        self.A (directly, through locals, or inside same-class helpers it calls), or
+    (b) a call that receives motion-derived arguments on a receiver that derives from self.A (the attribute itself,
+        an alias, an element of it in a loop / comprehension, a value of a dict of it, through literal tuples), or
+    (c) a same-class helper called with motion-derived arguments that does (a)/(b) itself.
+    Returns a set of attribute names without leading underscores."""
+    seen = seen if seen is not None else set()
+    if id(fn) in seen or depth > 4:
+        return set()
+    seen = seen | {id(fn)}
+    rd = ReachingDefs(fn)
+    prov = Provenance(fn, rd)
+    tainted = set(motion_params)
+    changed = True
+    stmts = [n for n in walk_no_nested(fn) if isinstance(n, (ast.Assign, ast.AnnAssign, ast.AugAssign, ast.For))]
+
+    def is_tainted(e):
+        return any(isinstance(x, ast.Name) and x.id in tainted for x in ast.walk(e))
+
+    while changed:
+        changed = False
+        for st in stmts:
+            if isinstance(st, ast.For):
+                val, tgts = st.iter, [st.target]
+            else:
+                val = st.value
+                tgts = st.targets if isinstance(st, ast.Assign) else [st.target]
+            if val is None or not is_tainted(val):
+                continue
+            for t in tgts:
+                for x in ast.walk(t):
+                    if isinstance(x, ast.Name) and x.id not in tainted:
+                        tainted.add(x.id)
+                        changed = True
+
+    def helper_of(call):
+        f = call.func
+        if isinstance(f, ast.Attribute) and isinstance(f.value, ast.Name) and f.value.id in ("self", "cls"):
+            _o, m = repo.find_method(cls, f.attr)
+            return m
+        return None
+
+    def self_attrs(e, d=0):
+        """attributes of self the value of e derives from"""
+        out = set()
+        if d > 6 or e is None:
+            return out
+        for x in ast.walk(e):
+            if isinstance(x, ast.Attribute):
+                ch = attr_chain(x)
+                if ch and ch[0] == "self" and len(ch) >= 2:
+                    out.add(ch[1].lstrip("_"))
+            elif isinstance(x, ast.Call) and call_name(x) == "getattr" and len(x.args) >= 2 and norm(x.args[0]) == "self" and isinstance(x.args[1], ast.Constant):
+                out.add(str(x.args[1].value).lstrip("_"))
+            elif isinstance(x, ast.Name) and isinstance(x.ctx, ast.Load) and x.id not in ("self", "cls") and x.id not in motion_params:
+                if id(x) in prov.comp_bind:
+                    out |= self_attrs(prov.comp_bind[id(x)], d + 1)
+                for df in rd.defs(x.id, x):
+                    if df.node is not None and df.kind in ("assign", "for", "unpack", "with"):
+                        out |= self_attrs(df.node, d + 1)
+            if isinstance(x, ast.Call):
+                h = helper_of(x)
+                if h is not None and id(h) not in seen:
+                    # reads inside a same-class helper
+                    for y in walk_no_nested(h):
+                        ch = attr_chain(y) if isinstance(y, ast.Attribute) else None
+                        if ch and ch[0] == "self" and len(ch) >= 2 and isinstance(y.ctx, ast.Load):
+                            _o2, m2 = repo.find_method(cls, ch[1])
+                            if m2 is None:
+                                out.add(ch[1].lstrip("_"))
+        # getters: self.x -> what the getter reads
+        more = set()
+        for a in out:
+            _c, pr = repo.find_prop(cls, a)
+            if pr is not None and "get" in pr:
+                for y in ast.walk(pr["get"]):
+                    ch = attr_chain(y) if isinstance(y, ast.Attribute) else None
+                    if ch and ch[0] == "self" and len(ch) == 2:
+                        more.add(ch[1].lstrip("_"))
+        return out | more
+
+    moved = set()
+    for n in walk_no_nested(fn):
+        # (a) stores
+        if isinstance(n, (ast.Assign, ast.AnnAssign, ast.AugAssign)):
+            val = n.value
+            tgts = n.targets if isinstance(n, ast.Assign) else [n.target]
+            if val is None or not is_tainted(val):
+                continue
+            reads = self_attrs(val)
+            for t in tgts:
+                for x in (t.elts if isinstance(t, (ast.Tuple, ast.List)) else [t]):
+                    if isinstance(x, ast.Attribute):
+                        a = x.attr.lstrip("_")
+                        if a in reads:
+                            moved.add(a)
+                    elif isinstance(x, ast.Subscript):
+                        # self.state_list[i] = self.state_list[i].translate_rotate(..)
+                        for a in self_attrs(x.value) & reads:
+                            moved.add(a)
+        # (b) / (c) calls
+        if isinstance(n, ast.Call):
+            args = list(n.args) + [k.value for k in n.keywords]
+            if not any(is_tainted(a) for a in args):
+                continue
+            # (d) immutable style: the moved value is handed to the constructor parameter that feeds the attribute
+            tc = repo.resolve_class(cls.mod, call_name(n) or "")
+            if tc is not None:
+                try:
+                    cm = ctor_model(repo, tc)
+                    pnames = [p[0] for p in cm.params]
+                    pattrs = cm.param_attrs()
+                except Exception:
+                    pnames, pattrs = [], {}
+                bound = list(zip(pnames, n.args)) + [(k.arg, k.value) for k in n.keywords if k.arg]
+                for pn, a in bound:
+                    if not is_tainted(a):
+                        continue
+                    reads = self_attrs(a)
+                    fed = {x.lstrip("_") for x in pattrs.get(pn, [])} | {pn.lstrip("_")}
+                    moved |= reads & fed
+                continue
+            h = helper_of(n)
+            if h is not None:
+                hp = [a.arg for a in h.args.args]
+                hp = hp[1:] if hp and hp[0] in ("self", "cls") else hp
+                tainted_params = [p for p, a in zip(hp, n.args) if is_tainted(a)] + [k.arg for k in n.keywords if k.arg and is_tainted(k.value)]
+                moved |= moved_attrs(repo, cls, h, tainted_params, depth + 1, seen)
+            elif isinstance(n.func, ast.Attribute):
+                moved |= self_attrs(n.func.value)
+    return moved
 
 
 def run(repo, res, tier):
@@ -199,45 +334,8 @@ def run(repo, res, tier):
         if len(params) < 2:
             raise AnalysisError("%s has no (translation, angle) parameters" % qn)
         tr, an = params
-        # attributes mentioned (directly, via trivial getter, or through a local alias / loop variable) inside a transform use
-        prov = Provenance(fn)
-        moved = set()
-        for u in uses:
-            nodes = [u]
-            if isinstance(u, ast.Call) and isinstance(u.func, ast.Attribute):
-                nodes.append(u.func.value)
-            for root in nodes:
-                for x in ast.walk(root):
-                    if isinstance(x, ast.Attribute):
-                        ch = attr_chain(x)
-                        if ch and ch[0] in ("self",) and len(ch) >= 2:
-                            moved.add(ch[1])
-                    elif isinstance(x, ast.Name) and isinstance(x.ctx, ast.Load) and x.id not in ("self", tr, an):
-                        # follow the local to the self attributes it was read from
-                        for d in prov.rd.defs(x.id, x):
-                            if d.node is not None:
-                                for y in ast.walk(d.node):
-                                    ch = attr_chain(y) if isinstance(y, ast.Attribute) else None
-                                    if ch and ch[0] == "self" and len(ch) >= 2:
-                                        moved.add(ch[1])
-                        if id(x) in prov.comp_bind:
-                            for y in ast.walk(prov.comp_bind[id(x)]):
-                                ch = attr_chain(y) if isinstance(y, ast.Attribute) else None
-                                if ch and ch[0] == "self" and len(ch) >= 2:
-                                    moved.add(ch[1])
-        # getattr(self, "position") style
-        for x in walk_no_nested(fn):
-            if isinstance(x, ast.Call) and call_name(x) == "getattr" and len(x.args) >= 2 and norm(x.args[0]) == "self" and isinstance(x.args[1], ast.Constant):
-                pass
-        moved_norm = set()
-        for a in moved:
-            moved_norm.add(a.lstrip("_"))
-            _c, p = repo.find_prop(cls, a)
-            if p is not None and "get" in p:
-                for y in ast.walk(p["get"]):
-                    ch = attr_chain(y) if isinstance(y, ast.Attribute) else None
-                    if ch and ch[0] == "self" and len(ch) == 2:
-                        moved_norm.add(ch[1].lstrip("_"))
+        # which attributes does the method move (data flow, independent of layout)
+        moved_norm = moved_attrs(repo, cls, fn, [tr, an])
         # delegation to the parent implementation credits what the parent moves
         for u in uses:
             if isinstance(u, ast.Call) and isinstance(u.func, ast.Attribute) and u.func.attr == "translate_rotate" and isinstance(u.func.value, ast.Call) and call_name(u.func.value) == "super":
@@ -288,6 +386,29 @@ def run(repo, res, tier):
                 "spatial attribute %s (declared %s) is not transformed: the object is torn apart by translate_rotate" % (a, sorted(names)[:4]),
                 qualname=qn,
             )
+        # same-class helpers that receive the motion parameters belong to the method (extract-method refactorings)
+        regions = [(fn, tr, an, uses)]
+        work = [(fn, tr, an)]
+        seen_h = {id(fn)}
+        while work:
+            f0, t0, a0 = work.pop()
+            for c in walk_no_nested(f0):
+                if isinstance(c, ast.Call) and isinstance(c.func, ast.Attribute) and isinstance(c.func.value, ast.Name) and c.func.value.id in ("self", "cls"):
+                    _o, h = repo.find_method(cls, c.func.attr)
+                    if h is None or id(h) in seen_h or h.name == "translate_rotate":
+                        continue
+                    hp = [x.arg for x in h.args.args]
+                    hp = hp[1:] if hp and hp[0] in ("self", "cls") else hp
+                    bind = dict(zip(hp, [norm(x) for x in c.args]))
+                    bind.update({k.arg: norm(k.value) for k in c.keywords if k.arg})
+                    ht = next((p for p, v in bind.items() if t0 is not None and v == t0), None)
+                    ha = next((p for p, v in bind.items() if v == a0), None)
+                    if ha is None:
+                        continue
+                    seen_h.add(id(h))
+                    hu, _p = transform_uses(mod, h, [ht, ha])
+                    regions.append((h, ht, ha, hu))
+                    work.append((h, ht, ha))
         # T3: parameter pass-through
         for u in uses:
             if not isinstance(u, ast.Call):
@@ -305,11 +426,12 @@ def run(repo, res, tier):
                         ok = False
             res.check("T3-FANOUT", "%s: %s(%s)" % (qn, cn, ", ".join(args)), ok, mod, u, "%s: %s(%s)" % (qn, cn, ", ".join(args)), "the nested transform does not receive (translation, angle) of the enclosing call unmodified, in this order", qualname=qn)
         # T6
-        for u in uses:
+        for rfn, _rt, _ra, ruses in regions:
+          for u in ruses:
             if isinstance(u, ast.BinOp):
                 par = mod.parent.get(u)
                 wrapped = isinstance(par, ast.Call) and u in par.args
-                guards = dominating_guards(mod, u, stop=fn)
+                guards = dominating_guards(mod, u, stop=rfn)
                 interval = any(pol and isinstance(t, ast.Call) and call_name(t) == "isinstance" and "AngleInterval" in norm(t.args[1]) for t, pol in guards)
                 plus = isinstance(u.op, ast.Add)
                 res.check("T6-WRAP", "%s: %s" % (qn, norm(u)), plus and (wrapped or interval), mod, u, "%s: %s" % (qn, norm(u)), "the rotated orientation is not brought back into the valid range (or is not th + angle)", qualname=qn)
